@@ -161,4 +161,4 @@ def oracle_C01(rec):
     return []
 
 
-ORACLES = {"C11": oracle_C11, "C01": oracle_C01}
+ORACLES = {"C11": oracle_C11, "C01": oracle_C01, "C19": oracle_C11}
